@@ -178,7 +178,7 @@ type c12SignCase struct {
 
 func c12GenSign(t *rapid.T) c12SignCase {
 	e, cls := h.C12GenEntry(t, "e")
-	c := c12SignCase{E: e, KeyCls: cls, Plain: rapid.IntRange(0, 15).Draw(t, "plain") == 0, BatchE: h.C09GenEntropy(t, "be")}
+	c := c12SignCase{E: e, KeyCls: cls, Plain: rapid.IntRange(0, 23).Draw(t, "plain") == 0, BatchE: h.C09GenEntropy(t, "be")}
 	n := rapid.IntRange(0, 4).Draw(t, "nmut")
 	for i := 0; i < n; i++ {
 		c.Muts = append(c.Muts, h.C12GenMut(t, fmt.Sprintf("m%d", i), false))
